@@ -167,8 +167,20 @@ def gen_C02(tier, seed):
                     else:
                         lines.append(f"{rv} colset {c} {r} {k}")
                 b.case(rng.choice(["u32", "cell"]), lines)
-        # unchecked getters on valid coordinates only (root + one view)
+        # unchecked getters on valid coordinates only: narrow and nested views (stride > width), every cell
         if C * R > 0:
+            for rv in mut_receivers(rng, C, R, 3 if tier == "quick" else 8):
+                cc, rr = recv_dims(C, R, rv)
+                lines = [root]
+                for r in range(rr):
+                    lines += [f"{rv} rowu {r}", f"{rv} rowsetu {r} {cc - 1} {700 + r}"]
+                    for c in range(cc):
+                        lines += [f"{rv} getu {c} {r}", f"{rv} setu {c} {r} {900 + 10 * r + c}", f"{rv} get {c} {r}"]
+                if rr:
+                    b.case("u32", lines)
+                sh = rv.replace("v(", "w(") if rv.startswith("@v(") else None
+                if sh and rr:
+                    b.case("u32", [root] + [f"{sh} getu {c} {r}" for r in range(rr) for c in range(cc)] + [f"{sh} rowu {r}" for r in range(rr)])
             lines = [root]
             for r in range(R):
                 lines.append(f"@ rowu {r}")
@@ -200,6 +212,18 @@ def gen_C03(tier, seed):
             b.case("u32", lines)
         # nested: every valid outer window x all inner windows (incl. one-off invalid), three receiver kinds
         outers = [w for w in valid_windows(C, R)]
+        fixed = []
+        if C >= 2 and R >= 2:
+            fixed = [(1, 0, C, R), (0, 0, C - 1, R), (1, 1, C, R)]
+        for w in fixed:
+            # narrower than the parent with several rows: every valid inner window, three receiver combinations
+            s = ",".join(map(str, w))
+            wc, wr = w[2] - w[0], w[3] - w[1]
+            lines = [root]
+            for i in valid_windows(wc, wr):
+                t = ",".join(map(str, i))
+                lines += [f"@v({s})v({t}) dumppos", f"@v({s})w({t}) dumppos", f"@w({s})w({t}) dumppos", f"@xv({s})v({t}) dump"]
+            b.case("u32", lines)
         for w in sample(rng, outers, 6 if tier == "quick" else 30):
             s = ",".join(map(str, w))
             wc, wr = w[2] - w[0], w[3] - w[1]
@@ -649,6 +673,7 @@ def gen_C04(tier, seed):
                        f"copy_from_toodee {cc} {rr} {fl(uniq(n, 7000))}",
                        f"copy_within 0 0 {max(cc - 1, 0)} {max(rr - 1, 0)} {1 if cc > 1 else 0} {1 if rr > 1 else 0}",
                        f"translate {cc // 2} {rr // 2}", f"translate {max(cc - 1, 0)} 1" if rr > 1 else "translate 0 0",
+                       f"setu {max(cc - 1, 0)} {max(rr - 1, 0)} 4245" if n else "fill 1", f"rowsetu {max(rr - 1, 0)} 0 4246" if n else "fill 2",
                        "flip_rows", "flip_cols",
                        "sort_by_row 0", "sort_unstable_by_row 0", "sort_by_col 0", "sort_unstable_by_col 0", "sort_by_col_key 0", "sort_row_ord 0",
                        f"set {max(cc - 1, 0)} {max(rr - 1, 0)} 4242", f"rowset {max(rr - 1, 0)} 0 4243", f"colset 0 {max(rr - 1, 0)} 4244",
@@ -656,6 +681,10 @@ def gen_C04(tier, seed):
                 lines = []
                 for op in ops:
                     lines += [root, f"{rv} {op}"]
+                if n <= 12:
+                    for mc in range(cc + 1):
+                        for mr in range(rr + 1):
+                            lines += [root, f"{rv} translate {mc} {mr}"]
                 b.case("u32", lines)
     return b.cases
 
